@@ -150,4 +150,10 @@ def PNode.meta : PNode → Meta
   | .empty => {}
 
 
+/-- `tree.Combine(l, r, op)`: new node, component type from the left (else right) operand -/
+def combineN (op : Str) (l r : PNode) : PNode :=
+  let ctl := l.meta.ct
+  .comb op [] [] { ct := if ctl ≠ [] then ctl else r.meta.ct } [] l r
+
+
 end IGVerif
